@@ -34,6 +34,15 @@ K = (
     Kind("reg", 0, 1, region=True),
     Kind("attrprop", 0, 1, attr="x", prop="p"),
 )
+# second alphabet: ops with several operands AND results, so that one op can use its own results (graph regions) at several
+# operand positions; every wiring over {own results, other op's results, external value}
+K2 = (
+    Kind("def", 0, 1),
+    Kind("use2r", 2, 1),
+    Kind("use2r2", 2, 2),
+)
+KINDS = {"K": K, "K2": K2}
+_CUR = ["K"]
 
 
 def all_objects(region) -> tuple[list, list, list, list]:
@@ -103,7 +112,7 @@ def build_case(desc):
     from xdsl.dialects.test import TestOp
 
     ext_op = TestOp(result_types=[i32])
-    src = irgen.build_region(desc, K, ext=[ext_op.results[0]])
+    src = irgen.build_region(desc, KINDS[_CUR[0]], ext=[ext_op.results[0]])
     set_hints(src)
     holder = TestOp(regions=[src.region])
     return ext_op, src, holder
@@ -172,7 +181,7 @@ def check_desc(st: Stats, desc: tuple, deep: bool) -> None:
                 ext_op, src, holder = build_case(desc)
                 src_objs = all_objects(src.region)
                 before = canon([holder], hints=True)
-                wit = {"desc": desc, "entry": "Region.clone" if dest_kind is None else "Region.clone_into",
+                wit = {"desc": desc, "kinds": _CUR[0], "entry": "Region.clone" if dest_kind is None else "Region.clone_into",
                        "dest": dest_kind, "index": idx, "clone_name_hints": hints, "clone_operands": operands}
                 what = "Region.clone" if dest_kind is None else f"Region.clone_into|dest={dest_kind}"
                 st.transitions += 1
@@ -258,7 +267,7 @@ def check_desc(st: Stats, desc: tuple, deep: bool) -> None:
                 ext_op, src, holder = build_case(desc)
                 op = src.ops[oi]
                 before = canon([holder], hints=True)
-                wit = {"desc": desc, "entry": entry, "op_index": oi, "clone_name_hints": hints, "clone_operands": operands}
+                wit = {"desc": desc, "kinds": _CUR[0], "entry": entry, "op_index": oi, "clone_name_hints": hints, "clone_operands": operands}
                 st.transitions += 1
                 st.executions += 1
                 vm, bm = {}, {}
@@ -359,7 +368,7 @@ def independence(st: Stats, desc, dest_kind, idx) -> None:
             st.executions += 1
             if canon([other], hints=True) != before:
                 st.violate(f"C02|independence|edit-{side}|{a[0]}", f"editing the {side} with {a[0]} changed the other side",
-                           {"desc": desc, "dest": dest_kind, "index": idx, "edit": c01.jsonable(a), "side": side})
+                           {"desc": desc, "kinds": _CUR[0], "dest": dest_kind, "index": idx, "edit": c01.jsonable(a), "side": side})
     # dictionary writes
     for side in ("copy", "source"):
         w, holder, cholder, _, _ = fresh()
@@ -373,7 +382,7 @@ def independence(st: Stats, desc, dest_kind, idx) -> None:
         st.executions += 1
         if canon([other], hints=True) != before:
             st.violate(f"C02|independence|edit-{side}|dict-write", f"writing attributes/properties/hints of the {side} changed the other side",
-                       {"desc": desc, "dest": dest_kind, "index": idx, "side": side})
+                       {"desc": desc, "kinds": _CUR[0], "dest": dest_kind, "index": idx, "side": side})
 
 
 def pass_on_clone(st: Stats, desc) -> None:
@@ -398,31 +407,35 @@ def pass_on_clone(st: Stats, desc) -> None:
             m2 = None
         st.executions += 1
         if canon([m], hints=True) != before:
-            st.violate(f"C02|apply_to_clone|{P.name}|original-modified", f"apply_to_clone({P.name}) modified the original module", {"desc": desc})
+            st.violate(f"C02|apply_to_clone|{P.name}|original-modified", f"apply_to_clone({P.name}) modified the original module", {"desc": desc, "kinds": _CUR[0]})
         if m2 is not None and m2 is m:
-            st.violate(f"C02|apply_to_clone|{P.name}|same-object", "apply_to_clone returned the original module", {"desc": desc})
+            st.violate(f"C02|apply_to_clone|{P.name}|same-object", "apply_to_clone returned the original module", {"desc": desc, "kinds": _CUR[0]})
         st.outcomes[f"pass:{P.name}:{'changed' if m2 is not None and canon([m2], hints=True) != before else 'same'}"] += 1
 
 
 def _shard(arg) -> Stats:
     bounds, n_ext, shard, nshards, deep_every, seed = arg
     st = Stats()
-    for i, desc in enumerate(irgen.enumerate_regions(K, n_ext=n_ext, **bounds)):
+    bounds = dict(bounds)
+    _CUR[0] = bounds.pop("kinds", "K")
+    for i, desc in enumerate(irgen.enumerate_regions(KINDS[_CUR[0]], n_ext=n_ext, **bounds)):
         if i % nshards != shard:
             continue
         check_desc(st, desc, deep=((i // nshards) % deep_every == 0))   # spread the deep cases evenly over the shards
-        if n_ext == 0:
+        if n_ext == 0 and _CUR[0] == "K":
             pass_on_clone(st, desc)
         if (i + seed) % 2003 == 0:
-            st.sample({"desc": desc})
+            st.sample({"desc": desc, "kinds": _CUR[0]})
     return st
 
 
 def run(ctx):
     if ctx.quick:
-        spaces = [(dict(max_blocks=2, max_ops=2, max_args=1, depth=1), 1, 64), (dict(max_blocks=1, max_ops=3, max_args=0, depth=1), 0, 64)]
+        spaces = [(dict(max_blocks=2, max_ops=2, max_args=1, depth=1), 1, 64), (dict(max_blocks=1, max_ops=3, max_args=0, depth=1), 0, 64),
+                  (dict(kinds="K2", max_blocks=1, max_ops=2, max_args=0, depth=0, need_term=False), 1, 16)]
     else:
-        spaces = [(dict(max_blocks=2, max_ops=3, max_args=1, depth=1), 1, 64), (dict(max_blocks=2, max_ops=2, max_args=1, depth=1), 1, 4)]
+        spaces = [(dict(max_blocks=2, max_ops=3, max_args=1, depth=1), 1, 64), (dict(max_blocks=2, max_ops=2, max_args=1, depth=1), 1, 4),
+                  (dict(kinds="K2", max_blocks=1, max_ops=2, max_args=1, depth=0, need_term=False), 1, 4)]
     n = 64
     tasks = [(sp, n_ext, i, n, deep_every, ctx.seed) for sp, n_ext, deep_every in spaces for i in range(n)]
     for _, st in pmap(_shard, tasks):
@@ -439,6 +452,7 @@ def replay(rep) -> bool:
         return tuple(tup(y) for y in x) if isinstance(x, list) else x
     st = Stats()
     desc = tup(rep["witness"]["desc"])
+    _CUR[0] = rep["witness"].get("kinds", "K")
     check_desc(st, desc, deep=True)
     has_ext = "('x'" in repr(desc)
     if not has_ext:
